@@ -11,14 +11,14 @@ ROLES = {
           "importbind", "g_assign", "g_read", "nl_assign", "nl_read",
           # compound roles
           "param_assign", "param_aug", "assign_rebind_after", "late_bind", "param_walrus", "nl_aug", "g_aug", "fortarget_rebind",
-          "destructure", "assign_in_branch", "walrus_in_comp", "kwparam_f"],
+          "destructure", "assign_in_branch", "walrus_in_comp", "kwparam_f", "walrus_while_test", "walrus_for_iter"],
     "C": ["none", "read", "assign", "aug", "fortarget", "comptarget", "defbind", "importbind", "g_assign", "g_read",
-          "nl_assign", "nl_read", "preread_assign", "assign_rebind_after", "destructure", "nl_aug"],
+          "nl_assign", "nl_read", "preread_assign", "assign_rebind_after", "destructure", "nl_aug", "walrus_while_test", "walrus_for_iter"],
     "L": ["none", "read", "param", "paramdef", "walrus", "walrus_in_comp", "param_walrus_in_comp",
           "kwparam", "kwparamdef", "posonlyparam", "varparam", "kwvarparam"],
     "G": ["none", "read", "comptarget", "walrus", "comptarget_nested_iter", "comptarget_iter_uses", "comptarget_second_iter_uses"],
     "M": ["none", "assign", "aug", "walrus", "fortarget", "comptarget", "defbind", "importbind", "preread_none",
-          "assign_rebind_after", "destructure", "walrus_in_comp"],
+          "assign_rebind_after", "destructure", "walrus_in_comp", "walrus_while_test", "walrus_for_iter"],
 }
 REDUCED = {"F": ["none", "read", "assign", "param", "nl_assign", "g_assign", "param_assign"],
            "C": ["none", "read", "assign", "nl_assign", "g_assign"],
@@ -56,6 +56,9 @@ def bind_lines(role, sid):
         "destructure": ["(x, _y%d), *_z%d = (%d, 1), 2" % (sid, sid, v)],
         "assign_in_branch": ["if log(%d,'t',1):" % sid, "    x = %d" % v, "else:", "    x = %d" % (v + 1)],
         "walrus_in_comp": ['log(%d,"wc",[(x := %d + _q%d) for _q%d in [0, 1]])' % (sid, v, sid, sid)],
+        # assignment expressions in loop headers
+        "walrus_while_test": ["_it%d = iter([%d, 0])" % (sid, v), "while (x := next(_it%d)):" % sid, '    log(%d,"wt",x)' % sid],
+        "walrus_for_iter": ["for _e%d in (x := [%d, %d]):" % (sid, v, v + 1), '    log(%d,"fi",x)' % sid],
     }[role]
 
 
